@@ -657,9 +657,7 @@ def _hasattr(interp, args, kwargs):
         if pe.obj.cls.name == "AttributeError":
             return False
         raise
-    except Undecided as _u:
-        import os as _o, sys as _s
-        _o.environ.get("PYVC_DBG") and print("DBGHAS", name, _u, file=_s.stderr)
+    except Undecided:
         if isinstance(obj, ModuleObj):
             return False
         raise
